@@ -68,30 +68,55 @@ def oracle_combine(rep: Report, names, groups):
 
 
 def channel_check(rep: Report, rng):
-    """frames of both halves preserved, L in channel 0, for both directory orders."""
-    from smpl_extract.data_streams import DataStream, StreamEncoding
-    from smpl_extract.generalized.sample import Sample
-    from smpl_extract.generalized.wav import WavSampleBuilder
+    """frames of both halves preserved, L in channel 0, for both directory orders - whatever else the halves differ
+    in: number of loop regions on each half (S102), sample rate, root note."""
+    import os
+    import tempfile
 
-    for order in ("LR", "RL"):
-        frames = rng.choice([1, 5, 2048, 2049, 5000])
-        L = bytes(rng.randrange(256) for _ in range(2 * frames))
-        R = bytes(rng.randrange(256) for _ in range(2 * frames))
-        mk = lambda n, d: Sample(name=n, data_streams=[DataStream(io.BytesIO(d), StreamEncoding(sample_width=2))], _export_name=n, sample_rate=44100)
-        ss = [mk("Pad -L", L), mk("Pad -R", R)]
-        if order == "RL":
-            ss.reverse()
-        out = FN.image().combine_stereo_routine(ss)
-        if len(out) != 1 or out[0].export_name != "Pad" or out[0].num_channels != 2:
-            rep.findings.append(Finding("combine-pair-not-merged", {"order": order}))
-            continue
-        buf = io.BytesIO()
-        WavSampleBuilder.build_stream(out[0], buf)
-        wav = buf.getvalue()
-        pcm = wav[wav.index(b"data") + 8 :]
-        want = b"".join(L[2 * f : 2 * f + 2] + R[2 * f : 2 * f + 2] for f in range(frames))
-        if pcm != want:
-            rep.findings.append(Finding("stereo-channel-content", {"order": order, "frames": frames}))
+    from smpl_extract.data_streams import DataStream, StreamEncoding
+    from smpl_extract.generalized.sample import LoopRegion, LoopType, Sample
+    from smpl_extract.generalized.wav import export_wav
+    from smpl_extract.midi import MidiNote, ScaleDegree
+
+    def loops(n, frames):
+        return [LoopRegion(start_sample=k, end_sample=max(k + 1, frames - 1 - k), loop_type=LoopType(1), repeat_forever=True, play_cnt=None, duration=None) for k in range(n)]
+
+    tmp = tempfile.mkdtemp(prefix="verif_c05_")
+    try:
+        for order in ("LR", "RL"):
+            for nl, nr in [(0, 0), (1, 0), (0, 1), (1, 2), (2, 1), (2, 2)]:
+                for rates in ((44100, 44100), (22050, 44100), (44100, 22050)):
+                    frames = rng.choice([1, 5, 2048, 2049, 5000])
+                    L = bytes(rng.randrange(256) for _ in range(2 * frames))
+                    R = bytes(rng.randrange(256) for _ in range(2 * frames))
+
+                    def mk(n, d, nloops, rate, note):
+                        return Sample(name=n, data_streams=[DataStream(io.BytesIO(d), StreamEncoding(sample_width=2))], _export_name=n, sample_rate=rate,
+                                      loop_regions=loops(nloops, frames), midi_note=MidiNote(ScaleDegree(note % 7), False, 3))
+
+                    ss = [mk("Pad -L", L, nl, rates[0], 0), mk("Pad -R", R, nr, rates[1], 5)]
+                    if order == "RL":
+                        ss.reverse()
+                    detail = {"order": order, "loops_left": nl, "loops_right": nr, "rates": list(rates), "frames": frames}
+                    out = FN.image().combine_stereo_routine(ss)
+                    if len(out) != 1 or out[0].export_name != "Pad" or out[0].num_channels != 2:
+                        rep.findings.append(Finding("combine-pair-not-merged", detail))
+                        continue
+                    path = os.path.join(tmp, "p.wav")
+                    if os.path.exists(path):
+                        os.remove(path)
+                    export_wav(out[0], path)
+                    wav = open(path, "rb").read()
+                    pcm = wav[wav.index(b"data") + 8 :]
+                    want = b"".join(L[2 * f : 2 * f + 2] + R[2 * f : 2 * f + 2] for f in range(frames))
+                    rep.feat("stereo_channel_checks")
+                    if pcm != want:
+                        swapped = pcm == b"".join(R[2 * f : 2 * f + 2] + L[2 * f : 2 * f + 2] for f in range(frames))
+                        rep.findings.append(Finding("stereo-channel-content" + ("-swapped" if swapped else ""), detail))
+    finally:
+        import shutil
+
+        shutil.rmtree(tmp, ignore_errors=True)
 
 
 def run(ctx, rep: Report, deep: bool = False):
